@@ -119,7 +119,12 @@ C11Big == {Case("C11", [item |-> "enum", reprs |-> <<r>>, variants |-> <<>>, cou
 
 \* C12: declarations outside the domain.  ctl: what rustc does with the same item without the derive
 \* ("ok" | "fail" | "any"), the renderer guard of the control build.
+\* every fault under several configurations: one that names the variants in generated code, one that does not
+\* (a derive that only skips its own check could still be rejected by rustc through the generated match arms)
+OutCfgs == {AllAuto({"as_str", "try_from"}), AllAuto({}), AllAuto({"names"}),
+            [attrs |-> <<<<E("sorted", "list", <<P("value", "none", "")>>), E("names", "path", <<>>)>>>>, varattr |-> NoVarAttr]}
 Out(r, src, note, ctl) == [prop |-> "C12", src |-> src, cfg |-> AllAuto({"as_str", "try_from"}), note |-> note, ctl |-> ctl]
+OutAll(S) == UNION {{[x EXCEPT !.cfg = cf] : cf \in OutCfgs} : x \in S}
 C12Items(r) ==
   {Out(r, [item |-> it, reprs |-> rp, variants |-> <<>>, count |-> 0, lim |-> Lim(r)], "not an enum: " \o it, "ok") :
      it \in {"struct_unit", "struct_tuple", "struct_named", "union"}, rp \in {<<>>, <<"C">>}}
@@ -164,7 +169,7 @@ C12Reprs(r) ==
      rp \in {<<>>, <<"C">>, <<"Rust">>, <<"u8, C">>, <<"C, u8">>, <<r, r>>, <<"u8", "i16">>, <<r, "align(2)">>, <<"align(2)", r>>,
              <<"u7">>, <<"-">>, <<r, "C">>, <<"C", r>>, <<"transparent">>}}
 C12Count == {Out(r, [item |-> "enum", reprs |-> <<r>>, variants |-> <<>>, count |-> 65535, lim |-> Lim(r)], "65535 variants", "ok") : r \in {"u16", "u64"}}
-C12All(r) == C12Items(r) \cup C12Fields(r) \cup C12Exprs(r) \cup C12Values(r) \cup C12Reprs(r)
+C12All(r) == OutAll(C12Items(r) \cup C12Fields(r) \cup C12Exprs(r) \cup C12Values(r) \cup C12Reprs(r))
 
 \* C14: sorted(name) / sorted(value)
 NamePool == <<<<97>>, <<97, 98>>, <<65>>, <<98>>, <<66>>, <<97>>, <<233>>, <<122>>, <<>>, <<97, 66>>>>   \* a ab A b B a e-acute z "" aB
